@@ -137,6 +137,15 @@ def nextRunning (hdr : PicHdr) (running : Nat) : Nat :=
     (hdr.options &&& Opt.compl Opt.OPPTYPE_OPTIONS &&& Opt.compl Opt.MPPTYPE_OPTIONS) |||
       (running &&& (Opt.OPPTYPE_OPTIONS ||| Opt.MPPTYPE_OPTIONS))
 
+/-- the batch reconstruction at the end of `decode_next_picture`: motion compensation, then the three inverse transforms -/
+def reconstruct (types : Array MbType) (ref : Option DecPic) (mvs : Array Mv4) (mbPerLine w : Nat) (pic : DecPic)
+    (lumaLv cbLv crLv : Array Dct) : Out DecPic := do
+  let pic ← gather types ref mvs mbPerLine pic
+  let luma ← Idct.idctChannel lumaLv pic.luma (mbPerLine * 2) w
+  let cb ← Idct.idctChannel cbLv pic.cb mbPerLine pic.chromaSpr
+  let cr ← Idct.idctChannel crLv pic.cr mbPerLine pic.chromaSpr
+  pure { pic with luma := luma, cb := cb, cr := cr }
+
 /-- Everything `decode_next_picture` does before it touches `self`: parse, reconstruct.  Reads the state only
 through `opts`, `running`, `getLast` and `getRef`.  Returns the header, the finished picture, the cursor. -/
 def decodeCore (s : State) (c : Cur) : Out (PicHdr × DecPic × Cur) := do
@@ -170,11 +179,8 @@ def decodeCore (s : State) (c : Cur) : Out (PicHdr × DecPic × Cur) := do
   let total := mbPerLine * mbHeight
   let mvs := if l.mvs.size < total then l.mvs ++ Array.replicate (total - l.mvs.size) zeroMv4 else l.mvs
   let types := if l.types.size < total then l.types ++ Array.replicate (total - l.types.size) MbType.inter else l.types
-  let pic ← gather types ref mvs mbPerLine pic
-  let luma ← Idct.idctChannel l.lumaLv pic.luma (mbPerLine * 2) w
-  let cb ← Idct.idctChannel l.cbLv pic.cb mbPerLine pic.chromaSpr
-  let cr ← Idct.idctChannel l.crLv pic.cr mbPerLine pic.chromaSpr
-  pure (hdr, { pic with luma := luma, cb := cb, cr := cr }, l.cur)
+  let pic ← reconstruct types ref mvs mbPerLine w pic l.lumaLv l.cbLv l.crLv
+  pure (hdr, pic, l.cur)
 
 /-- The state mutation at the end of `decode_next_picture` (all of it sits after the last fallible step):
 an I picture clears the reference; the picture is filed under its temporal reference (disposable pictures
